@@ -339,6 +339,9 @@ def correspond(res, drv, batch):
             impl = f"err:{ee}" if ee else impl_circ_repr(cc)
             if impl != rep[key]:
                 res.exact_break(what, input=inp, impl=impl[:800], model=rep[key][:800])
+        if rep.get("timp") != rep["qimp"]:
+            # the model's text-level parser (regex / slicing glue) and its statement-level parser disagree on the model's own text
+            res.exact_break("model: parseText(render) != parseStmts", input=inp, text_level=rep.get("timp", "")[:400], stmt_level=rep["qimp"][:400])
         if rep["std"] != rep["ref"]:
             # model-side reading of the model's own export differs from the circuit: the theorem's conclusion fails here
             res.exact_break("qasmStd(model export) != circuit", input=inp, model=rep["std"][:400], ref=rep["ref"][:400])
@@ -528,8 +531,75 @@ def run_parser_stream(res, drv, rng, n):
             res.nontrivial("parse", text)
         if impl != rep["res"]:
             res.exact_break("from_openqasm(statement list)", input={"text": text[:1200]}, impl=impl[:500], model=rep["res"][:500])
+        if impl != rep.get("tres"):
+            res.exact_break("from_openqasm(text)", input={"text": text[:1200]}, impl=impl[:500], model=rep.get("tres", "")[:500])
     if lines:
         res.sample(lines[0][:300] + " -> " + reps[0]["_raw"][:200])
+
+
+def mutate_text(rng, text):
+    """character-level edits of an exported script: what the regex / slicing glue of the parser has to survive (or reject)"""
+    t = list(text)
+    for _ in range(rng.choice([1, 1, 2, 3])):
+        if not t:
+            break
+        w = rng.random()
+        i = rng.randrange(len(t))
+        if w < 0.25:
+            del t[i]
+        elif w < 0.45:
+            t.insert(i, rng.choice(" \n\t;[]0123456789epcxhsz,(){}->="))
+        elif w < 0.6:
+            t[i] = rng.choice(" ;[]0123456789epcxhszdg,")
+        elif w < 0.75:
+            # drop or duplicate a whole statement
+            parts = "".join(t).split(";")
+            k = rng.randrange(len(parts))
+            if rng.random() < 0.5:
+                parts.pop(k)
+            else:
+                parts.insert(k, parts[k])
+            t = list(";".join(parts))
+        elif w < 0.9:
+            # change spacing
+            s2 = "".join(t)
+            s2 = s2.replace(", ", rng.choice([",", ",  ", " , "]), 1) if rng.random() < 0.5 else s2.replace(" ", "  ", 1)
+            t = list(s2)
+        else:
+            s2 = "".join(t)
+            a, b = rng.choice([("[0]", "[1]"), ("->", "-"), ("measure", "measur"), ("if", "iff"), ("reset", "rset"), ("gate", "gat"), ("}", ""), ("{", "")])
+            t = list(s2.replace(a, b, 1))
+    return "".join(t)
+
+
+def run_text_stream(res, drv, rng, n):
+    """arbitrary text for `from_openqasm`: exported scripts with character-level edits"""
+    from graphiq.circuit.circuit_dag import CircuitDAG
+
+    texts = []
+    for _ in range(n):
+        ne, np_, nc = rng.randrange(1, 13), rng.randrange(0, 13), rng.randrange(1, 4)
+        adds = cu.random_circuit(rng, ne, np_, nc, rng.randrange(0, 8))
+        text = cu.build(ne, np_, nc, adds).to_openqasm()
+        texts.append(text if rng.random() < 0.1 else mutate_text(rng, text))
+    texts = [t for t in texts if all(32 <= ord(ch) < 127 or ch in "\n\t" for ch in t)]
+    lines = [f"c14.parsetext text={cu.pct_enc(t)}" for t in texts]
+    reps = drv.batch(lines)
+    for text, rep in zip(texts, reps):
+        res.evaluations += 1
+        c, e = try_call(CircuitDAG.from_openqasm, text)
+        impl = f"err:{e}" if e else impl_circ_repr(c)
+        if not e and re.search(r"[epc]-\d", impl):
+            # Python's int() accepts a sign: a negative register index is outside the model's domain (and the property's)
+            res.count("branches", "parsetext:negative-register-skipped")
+            continue
+        res.count("branches", "parsetext:" + ("error:" + e if e else "ok"))
+        if e:
+            res.count("errors", e)
+        else:
+            res.nontrivial("parsetext", text)
+        if rep["_status"] != "ok" or impl != rep.get("tres"):
+            res.exact_break("from_openqasm(edited text)", input={"text": text[:1500]}, impl=impl[:500], model=rep["_raw"][:500])
 
 
 NAMES_JSON = ["h", "s", "sdg", "x", "y", "z", "p", "id", "CX", "cx", "cz", "classical x", "classical z", "classical reset x", "measure z",
@@ -676,6 +746,7 @@ def run(ctx):
                  state_check=False)
     # 4. importers on arbitrary inputs
     run_parser_stream(res, drv, rng, 1500 if q else 15000)
+    run_text_stream(res, drv, rng, 800 if q else 8000)
     run_json_stream(res, drv, rng, 600 if q else 6000)
     run_names(res, drv, rng, 1500 if q else 15000)
     res.extra["driver_lines"] = drv.n_lines
